@@ -205,7 +205,7 @@ TRANSPARENT_CLASSES = (sp.exp, sp.log, sp.sin, sp.cos, sp.tan, sp.cot, sp.sec, s
                        sp.atan2, sp.Abs, sp.Min, sp.Max, sp.sign, sp.acot, sp.asinh, sp.acosh, sp.atanh)
 
 
-def abstract_leaves(expr, render):
+def abstract_leaves(expr, render, float_key=None):
     """Replace every non-arithmetic sub-expression of `expr` by a placeholder symbol named after its own rendering.
     Returns (abstracted expression, {rendering: placeholder})."""
     leaf_map = {}
@@ -221,10 +221,11 @@ def abstract_leaves(expr, render):
         if e.is_Float and e.is_finite:
             # a float literal is a named parameter (named by its own rendering): keeps binary rounding out of the comparison
             mag = abs(e)
-            key = sp.sstr(mag, full_prec=False)      # how a float prints inside an expression ("0.4")
+            key = float_key(mag) if float_key else sp.sstr(mag, full_prec=False)      # how a float prints inside an expression ("0.4")
             if key not in leaf_map:
                 leaf_map[key] = sp.Symbol(f"L{len(leaf_map)}_", real=True)
-                leaf_map.setdefault(sp.sstr(mag, full_prec=True), leaf_map[key])   # and on its own ("0.400000000000000")
+                if not float_key:
+                    leaf_map.setdefault(sp.sstr(mag, full_prec=True), leaf_map[key])   # and on its own ("0.400000000000000")
             return leaf_map[key] if e > 0 else (-leaf_map[key] if e < 0 else sp.S.Zero)
         if e.is_Number or e in (sp.pi, sp.E, sp.I, sp.oo, -sp.oo, sp.zoo, sp.nan):
             return e
